@@ -36,6 +36,8 @@ theorem postSetattr_quiet {E : Env} (pq : PostQuiet E) (t : TraitCore) (v : Id) 
   unfold OSt.posted; cases t.post <;> rfl
 @[simp] theorem posted_on (s : OSt) (t : TraitCore) (v : Id) : (s.posted t v).on = s.on := by
   unfold OSt.posted; cases t.post <;> rfl
+@[simp] theorem posted_it (s : OSt) (t : TraitCore) (v : Id) : (s.posted t v).it = s.it := by
+  unfold OSt.posted; cases t.post <;> rfl
 @[simp] theorem posted_cn (s : OSt) (t : TraitCore) (v : Id) : (s.posted t v).cn = s.cn := by
   unfold OSt.posted; cases t.post <;> rfl
 @[simp] theorem posted_self (s : OSt) (t : TraitCore) (v : Id) : (s.posted t v).self = s.self := by
@@ -50,6 +52,7 @@ theorem postSetattr_quiet {E : Env} (pq : PostQuiet E) (t : TraitCore) (v : Id) 
 @[simp] theorem withNval_slot (s : OSt) (n : Nat) : (s.withNval n).slot = s.slot := rfl
 @[simp] theorem withNval_tn (s : OSt) (n : Nat) : (s.withNval n).tn = s.tn := rfl
 @[simp] theorem withNval_on (s : OSt) (n : Nat) : (s.withNval n).on = s.on := rfl
+@[simp] theorem withNval_it (s : OSt) (n : Nat) : (s.withNval n).it = s.it := rfl
 @[simp] theorem withNval_cn (s : OSt) (n : Nat) : (s.withNval n).cn = s.cn := rfl
 @[simp] theorem withNval_self (s : OSt) (n : Nat) : (s.withNval n).self = s.self := rfl
 @[simp] theorem withNval_noNotify (s : OSt) (n : Nat) : (s.withNval n).noNotify = s.noNotify := rfl
@@ -144,7 +147,7 @@ theorem setattrTrait_some_nf {E : Env} {t : TraitCore} {m : CMode} {orig po : Bo
           · cases hslot : s.slot <;> simp [hslot]
           · cases hslot : s.slot <;> simp [hslot]
         · have hc' : ¬ (m == CMode.none || s.slot.getD d != w) = true := hc
-          simp only [hc, hc', if_false]
+          simp only [hc, hc']
           cases hslot : s.slot <;> simp [hslot]
       · have hp1 : t.post.isSome = false := by
           cases h : t.post.isSome <;> simp_all
@@ -154,5 +157,155 @@ theorem setattrTrait_some_nf {E : Env} {t : TraitCore} {m : CMode} {orig po : Bo
           cases h : t.post <;> simp_all
         simp only [hp1, hp2, Bool.or_self, Bool.false_eq_true, if_false]
         cases hm : (m == CMode.none) <;> simp [OSt.posted, hpn]
+
+/-- State after `del obj.x`. -/
+def delNF (E : Env) (t : TraitCore) (m : CMode) (d : Id) (s : OSt) : OSt :=
+  match s.slot with
+  | none => s
+  | some old =>
+    let s1 := { s with slot := none }
+    if s.noNotify then s1
+    else if s.tn.isSome || s.on.isSome then
+      let s2 := ({ s1 with slot := some d }).posted t d
+      if m == .none || old != d then
+        let s3 := s2.posted t d
+        if hasNotifiers s.tn s.on then
+          s3.notified (touches old (snapshot s.tn s.on)) (fired E.cmp t s.self old d (snapshot s.tn s.on))
+        else s3
+      else s2
+    else s1
+
+theorem setattrTrait_del_nf {E : Env} {t : TraitCore} {m : CMode} {orig po : Bool} {d : Id}
+    (st : StdTrait t m orig po d) (q : Quiet E) (pq : PostQuiet E) (s : OSt) :
+    setattrTrait E t none s = (none, delNF E t m d s) := by
+  unfold setattrTrait setattrTraitDel delNF traitGetattr
+  simp only [st.kind, st.flags, testFlag_none, getattrTrait_nf st q pq, postSetattr_quiet pq,
+    callNotifiers_quiet q]
+  cases hslot : s.slot with
+  | none => rfl
+  | some old =>
+    have e1 : ∀ (a : Option Id) (b : Bool), ({ s with slot := a, noNotify := b } : OSt).tn = s.tn := fun _ _ => rfl
+    cases hnn : s.noNotify
+    · simp only [e1, Bool.false_eq_true, if_false]
+      cases hex : (s.tn.isSome || s.on.isSome)
+      · simp
+      · simp only [if_true]
+        by_cases hc : (m == CMode.none || old != d) = true
+        · simp only [hc, if_true]
+          cases hn : hasNotifiers s.tn s.on <;> simp
+        · simp [hc]
+    · simp
+
+/-- State after reading `obj.x`. -/
+def getNF (t : TraitCore) (d : Id) (s : OSt) : OSt :=
+  match s.slot with
+  | some _ => s
+  | none => ({ s with slot := some d }).posted t d
+
+theorem getattro_nf {E : Env} {t : TraitCore} {m : CMode} {orig po : Bool} {d : Id}
+    (st : StdTrait t m orig po d) (q : Quiet E) (pq : PostQuiet E) (s : OSt) :
+    getattro E t s = (.ok (s.slot.getD d), getNF t d s) := by
+  unfold getattro getNF traitGetattr
+  cases hslot : s.slot with
+  | some v => rfl
+  | none => simp [st.kind, getattrTrait_nf st q pq]
+
+/-- `step` on the four value operations, callbacks resolved. -/
+theorem step_set_nf {E : Env} {t : TraitCore} {m : CMode} {orig po : Bool} {d : Id}
+    (st : StdTrait t m orig po d) (q : Quiet E) (pq : PostQuiet E) (s : OSt) (v : Id) :
+    step E t s (.set v) =
+      match specValidate E t true s.ctx.nval v with
+      | (.error e, nv) => ({ exc := some e }, s.withNval nv)
+      | (.ok w, nv) => ({}, setNF E t m orig po d s v w nv) := by
+  unfold step traitSetattr
+  simp only [st.kind, setattrTrait_some_nf st q pq]
+  cases specValidate E t true s.ctx.nval v with
+  | mk r nv => cases r <;> rfl
+
+theorem step_del_nf {E : Env} {t : TraitCore} {m : CMode} {orig po : Bool} {d : Id}
+    (st : StdTrait t m orig po d) (q : Quiet E) (pq : PostQuiet E) (s : OSt) :
+    step E t s .del = ({}, delNF E t m d s) := by
+  unfold step traitSetattr
+  simp only [st.kind, setattrTrait_del_nf st q pq]
+
+theorem step_get_nf {E : Env} {t : TraitCore} {m : CMode} {orig po : Bool} {d : Id}
+    (st : StdTrait t m orig po d) (q : Quiet E) (pq : PostQuiet E) (s : OSt) :
+    step E t s .get = ({ val := some (s.slot.getD d) }, getNF t d s) := by
+  unfold step
+  simp only [getattro_nf st q pq]
+
+theorem step_setq_nf {E : Env} {t : TraitCore} {m : CMode} {orig po : Bool} {d : Id}
+    (st : StdTrait t m orig po d) (q : Quiet E) (pq : PostQuiet E) (s : OSt) (v : Id) :
+    step E t s (.setq v) =
+      match specValidate E t true s.ctx.nval v with
+      | (.error e, nv) => ({ exc := some e }, { (s.withNval nv) with noNotify := false })
+      | (.ok w, nv) =>
+        ({}, { (setNF E t m orig po d { s with noNotify := true } v w nv) with noNotify := false }) := by
+  unfold step traitSetattr
+  simp only [st.kind, setattrTrait_some_nf st q pq]
+  cases specValidate E t true s.ctx.nval v with
+  | mk r nv => cases r <;> rfl
+
+/-! ### Event traits -/
+
+/-- State after firing an Event with accepted value `w`. -/
+def eventNF (E : Env) (t : TraitCore) (s : OSt) (w : Id) (nv : Nat) : OSt :=
+  let s1 := s.withNval nv
+  if hasNotifiers s.tn s.on then
+    if s.noNotify then s1
+    else s1.notified (touches undef (snapshot s.tn s.on)) (fired E.cmp t s.self undef w (snapshot s.tn s.on))
+  else s1
+
+theorem setattrEvent_some_nf {E : Env} (q : Quiet E) (t : TraitCore) (s : OSt) (v : Id) :
+    setattrEvent E t (some v) s =
+      match specValidate E t false s.ctx.nval v with
+      | (.error e, nv) => (some e, s.withNval nv)
+      | (.ok w, nv) => (none, eventNF E t s w nv) := by
+  unfold setattrEvent specValidate runValidate eventNF
+  cases hv : t.validate with
+  | none =>
+    simp only [callNotifiers_quiet q]
+    have : s.withNval s.ctx.nval = s := rfl
+    cases hn : hasNotifiers s.tn s.on <;> simp [this]
+  | some k =>
+    simp only [Bool.false_and, Bool.false_eq_true, if_false]
+    cases hr : E.validate k s.ctx.nval v with
+    | error e => rfl
+    | ok w =>
+      simp only [callNotifiers_quiet q]
+      have e1 : ({ s with ctx := { s.ctx with nval := s.ctx.nval + 1 } } : OSt) = s.withNval (s.ctx.nval + 1) := rfl
+      simp only [e1, withNval_tn]
+      cases hn : hasNotifiers s.tn s.on <;> simp
+
+theorem step_set_event_nf {E : Env} (q : Quiet E) {t : TraitCore} (hk : t.kind = .event) (s : OSt) (v : Id) :
+    step E t s (.set v) =
+      match specValidate E t false s.ctx.nval v with
+      | (.error e, nv) => ({ exc := some e }, s.withNval nv)
+      | (.ok w, nv) => ({}, eventNF E t s w nv) := by
+  unfold step traitSetattr
+  simp only [hk, setattrEvent_some_nf q]
+  cases specValidate E t false s.ctx.nval v with
+  | mk r nv => cases r <;> rfl
+
+theorem step_setq_event_nf {E : Env} (q : Quiet E) {t : TraitCore} (hk : t.kind = .event) (s : OSt) (v : Id) :
+    step E t s (.setq v) =
+      match specValidate E t false s.ctx.nval v with
+      | (.error e, nv) => ({ exc := some e }, { (s.withNval nv) with noNotify := false })
+      | (.ok w, nv) => ({}, { (eventNF E t { s with noNotify := true } w nv) with noNotify := false }) := by
+  unfold step traitSetattr
+  simp only [hk, setattrEvent_some_nf q]
+  cases specValidate E t false s.ctx.nval v with
+  | mk r nv => cases r <;> rfl
+
+theorem step_del_event {E : Env} {t : TraitCore} (hk : t.kind = .event) (s : OSt) :
+    step E t s .del = ({}, s) := by
+  simp [step, traitSetattr, hk, setattrEvent]
+
+theorem step_get_event {E : Env} {t : TraitCore} (hk : t.kind = .event) (s : OSt) :
+    step E t s .get = (match s.slot with
+      | some v => ({ val := some v }, s)
+      | none => ({ exc := some .attributeError }, s)) := by
+  unfold step getattro traitGetattr
+  cases s.slot <;> simp [hk]
 
 end TraitsVerif.Model.Attr
